@@ -1,0 +1,16 @@
+//go:build verif
+
+package invocation
+
+import (
+	"time"
+
+	"github.com/ucan-wg/go-ucan/token/delegation"
+)
+
+// VerifTimeBoundAt exposes verifyTimeBoundAt to the verification harness in
+// /verif so that the chain-level time check can be explored at arbitrary
+// instants. It only exists under the "verif" build tag.
+func VerifTimeBoundAt(t *Token, at time.Time, delegations []*delegation.Token) error {
+	return t.verifyTimeBoundAt(at, delegations)
+}
